@@ -271,7 +271,7 @@ def run(ops, K=2, needs_hist=(2,), chains=2, seed=0, J=1, init_cfgs=(), included
         hdr = {"K": K, "J": J, "needs": sorted(needs_hist), "chain": c, "init": list(init_cfgs),
                "kernel_keys": keys, "included": list(included), "excluded": list(excluded), "nq": nq,
                "via_builder": via_builder, "seed": seed, "lenient": False,
-               "postkey": [k for k in keys if k not in excluded][0]}
+               "postkey": ([k for k in keys if k not in excluded] + [""])[0]}
         hdr["scenario"] = {"ops": [list(o) for o in ops], "K": K, "needs_hist": list(needs_hist), "chains": chains,
                            "seed": seed, "J": J, "init_cfgs": list(init_cfgs), "included": list(included),
                            "excluded": list(excluded), "store_kernel_states": store_kernel_states,
@@ -387,12 +387,16 @@ def results_event(res, eng, keys, K, chains, included, excluded, store_kernel_st
         if post is None:
             per_chain[c]["posterior"] = {"none": True, "tags": []}
         else:
-            k0 = [k for k in keys if k not in excluded][0]
+            k0 = ([k for k in keys if k not in excluded] + [None])[0]
             k0 = k0 if k0 in post else None
             tags = []
             if k0 is not None:
                 arr = np.asarray(post[k0])[c]
                 tags = [_uniform_tag(arr[t])[:2] for t in range(arr.shape[0])]
+            elif len(post):
+                # no kernel key is tracked: one entry per stored posterior iteration of whatever is tracked
+                n = int(np.asarray(post[sorted(post)[0]]).shape[1])
+                tags = [[-7, -7]] * n
             per_chain[c]["posterior"] = {"none": False, "tags": tags, "keys": sorted(post.keys())}
     # tuning times as reported by the results object
     # (G5, not a listed property: without any tuned epoch get_tuning_times() raises "Trying to unwrap None" instead of
